@@ -647,6 +647,29 @@ func (s *State) checkPost(res []Val) {
 		pkgName = p.Pkg.Name()
 	}
 	c.checkIfacePosts(s, res)
+	// allocation sets of tracked types are ghost state: a function that allocates such objects must say so
+	if c.frameOn && !c.frameAll {
+		for k, t := range s.heap {
+			if !strings.HasPrefix(k, "allocset|") {
+				continue
+			}
+			if et, ok := c.entry.heap[k]; ok && et == t {
+				continue
+			}
+			declared := false
+			for _, l := range c.frame {
+				if l.kind == "allocset" && l.prefix == k {
+					declared = true
+				}
+			}
+			if _, ok := c.entry.heap[k]; !ok && strings.HasPrefix(t, "H!") {
+				continue // only read, never written
+			}
+			if !declared {
+				s.oblige("frame", nil, c.ordinal(nil, "frame-allocset"), "false", "the function allocates objects of a tracked type but its assigns clause lacks "+strings.Replace(k, "|", "(", 1)+")", false)
+			}
+		}
+	}
 	if len(c.eng.contracts.Guardeds) > 0 && !c.con.NoLockExit && c.usesLock {
 		s.oblige("lock-balance", nil, 1, eq(s.held, c.entryHeld), "the function returns with the UI mutex in the state it was entered with", true)
 	}
@@ -1560,4 +1583,30 @@ func keyFamily(key string) string {
 		return "elem|" + k
 	}
 	return ""
+}
+
+func (e *Engine) isTracked(t types.Type) bool {
+	n, ok := t.(*types.Named)
+	if !ok || n.Obj().Pkg() == nil {
+		return false
+	}
+	for _, g := range e.contracts.Tracked {
+		if g.Type == n.Obj().Name() && g.Pkg == n.Obj().Pkg().Name() {
+			return true
+		}
+	}
+	return false
+}
+
+func (e *Engine) trackedPkg(tkey string) *types.Package {
+	for _, g := range e.contracts.Tracked {
+		sp := e.pkgByName[g.Pkg]
+		if sp == nil {
+			continue
+		}
+		if tm, ok := sp.Members[g.Type].(*ssa.Type); ok && typeKey(tm.Type()) == tkey {
+			return sp.Pkg
+		}
+	}
+	return nil
 }
